@@ -5,17 +5,26 @@ import WK.Proofs.C17_lists
 -/
 namespace WK.C17
 
-/-- the writes of one committed closure, relative to the committed store -/
-inductive OneOp (db : State) : List W → Prop
-  | nothing : OneOp db []
-  | upsert (t : Task) (ws : List W) : upsertWrites db t = .ok ws → OneOp db ws
-  | upsertMeta (c : Cmd) (t nt : Task) (m nm0 : Meta) (ws : List W) :
+/-- the writes of the one closure that a single command `c` commits, relative to the committed store -/
+inductive OneOp (db : State) (c : Cmd) : List W → Prop
+  | nothing : OneOp db c []
+  | create (ws : List W) : db.task? c.task.chan c.task.id = none → upsertWrites db c.task = .ok ws → OneOp db c ws
+  | taskOnly (t nt : Task) (ws : List W) :
+      db.task? c.g.chan c.g.id = some t → c.g.matches t = true → mutTaskOnly c t = .ok nt →
+      upsertWrites db nt = .ok ws → OneOp db c ws
+  | taskMeta (t nt : Task) (m nm0 : Meta) (ws : List W) :
       db.task? c.g.chan c.g.id = some t → db.meta? c.rg.chan = some m →
       mutate c t m = .ok (nt, nm0) → c.g.matches t = true → c.rg.matches m = true →
+      (t.terminal = true → t = nt) → validTask nt = true →
       validMeta (bumpRoute m (normMeta nm0)) = true →
       upsertWrites db nt = .ok ws →
-      OneOp db (ws ++ [W.putMeta c.rg.chan (normMeta (bumpRoute m (normMeta nm0)))])
-  | gc (b l : Nat) : OneOp db (gcWrites db b l)
+      OneOp db c (ws ++ [W.putMeta c.rg.chan (normMeta (bumpRoute m (normMeta nm0)))])
+  | gc : OneOp db c (gcWrites db c.before c.limit)
+
+/-- the closures command `c` can queue -/
+def OpOf (c : Cmd) (op : Staged) : Prop :=
+  op = Staged.createRow c.task ∨ op = Staged.guardCreate c.task c.rg ∨ op = Staged.taskOnly c ∨
+  op = Staged.taskMeta c ∨ op = Staged.gc c.before c.limit
 
 theorem ov_empty_task (db : State) (c i : Nat) : ({} : Ov).task? db c i = db.task? c i := by
   simp [Ov.task?]
@@ -36,36 +45,35 @@ theorem runStaged_guard (db : State) (o o' : Ov) (t : Task) (rg : RtGuard) (ws :
       · simp at h
       · simp at h; exact ⟨h.1.symm, h.2⟩
 
-theorem runStaged_oneOp (db : State) (op : Staged) (o' : Ov) (ws : List W)
-    (h : runStaged db {} op = .ok (o', ws)) : OneOp db ws := by
-  cases op with
-  | createRow t =>
-    simp only [runStaged, ov_empty_task] at h
+theorem runStaged_oneOp (db : State) (c : Cmd) (op : Staged) (hop : OpOf c op) (o' : Ov) (ws : List W)
+    (h : runStaged db {} op = .ok (o', ws)) : OneOp db c ws := by
+  rcases hop with rfl | rfl | rfl | rfl | rfl
+  · simp only [runStaged, ov_empty_task] at h
     split at h
     · split at h
       · simp at h; rw [h.2]; exact .nothing
       · simp at h
-    · split at h
+    · rename_i hnone
+      split at h
       · simp at h
       · rename_i ws' hw
-        simp at h; rw [← h.2]; exact .upsert t ws' hw
-  | guardCreate t rg =>
-    have := runStaged_guard db {} o' t rg ws h
+        simp at h; rw [← h.2]; exact .create ws' hnone hw
+  · have := runStaged_guard db {} o' c.task c.rg ws h
     rw [this.2]; exact .nothing
-  | taskOnly c =>
-    simp only [runStaged, ov_empty_task] at h
+  · simp only [runStaged, ov_empty_task] at h
     split at h
     · simp at h
-    · split at h
+    · rename_i t ht
+      split at h
       · simp at h
-      · split at h
+      · rename_i hg
+        split at h
         · simp at h
         · split at h
           · simp at h
           · rename_i _ nt hmut _ ws' hw
-            simp at h; rw [← h.2]; exact .upsert nt ws' hw
-  | taskMeta c =>
-    simp only [runStaged, ov_empty_task, ov_empty_meta] at h
+            simp at h hg; rw [← h.2]; exact .taskOnly t nt ws' ht hg hmut hw
+  · simp only [runStaged, ov_empty_task, ov_empty_meta] at h
     split at h
     · simp at h
     · rename_i t ht
@@ -82,9 +90,11 @@ theorem runStaged_oneOp (db : State) (op : Staged) (o' : Ov) (ws : List W)
           · rename_i hg
             split at h
             · simp at h
-            · split at h
+            · rename_i hterm
+              split at h
               · simp at h
-              · split at h
+              · rename_i hvt
+                split at h
                 · simp at h
                 · rename_i hv
                   split at h
@@ -92,11 +102,10 @@ theorem runStaged_oneOp (db : State) (op : Staged) (o' : Ov) (ws : List W)
                   · rename_i ws' hw
                     simp at h
                     rw [← h.2]
-                    simp at hg hv
-                    exact .upsertMeta c t nt m nm0 ws' ht hm hmut hg.1 hg.2 hv hw
-  | gc b l =>
-    simp [runStaged] at h
-    rw [← h.2]; exact .gc b l
+                    simp at hg hv hvt hterm
+                    exact .taskMeta t nt m nm0 ws' ht hm hmut hg.1 hg.2 hterm hvt hv hw
+  · simp [runStaged] at h
+    rw [← h.2]; exact .gc
 
 theorem stageCreate_fresh (s0 : List Staged) (t : Task) (wb' : WB)
     (h : stageCreate { staged := s0 } t = .ok wb') : wb'.staged = s0 ++ [Staged.createRow t] := by
@@ -109,7 +118,8 @@ theorem stageCreate_fresh (s0 : List Staged) (t : Task) (wb' : WB)
 /-- the closures one command queues on a fresh WriteBatch -/
 theorem stageCmd_shape (c : Cmd) :
     let ops := (stageCmd {} c).1.staged
-    ops = [] ∨ (∃ op, ops = [op]) ∨ (∃ t rg op, ops = [Staged.guardCreate t rg, op]) ∨ (∃ t rg, ops = [Staged.guardCreate t rg]) := by
+    ops = [] ∨ (∃ op, OpOf c op ∧ ops = [op]) ∨ (∃ op, OpOf c op ∧ ops = [Staged.guardCreate c.task c.rg, op]) ∨
+      (ops = [Staged.guardCreate c.task c.rg]) := by
   simp only
   unfold stageCmd
   cases hk : c.kind
@@ -118,7 +128,7 @@ theorem stageCmd_shape (c : Cmd) :
     split
     · rename_i wb' h
       have := stageCreate_fresh [] c.task wb' h
-      right; left; exact ⟨_, by simpa using this⟩
+      right; left; exact ⟨_, Or.inl rfl, by simpa using this⟩
     · left; rfl
   case createg =>
     simp only
@@ -127,20 +137,32 @@ theorem stageCmd_shape (c : Cmd) :
     · split
       · rename_i wb' h
         have := stageCreate_fresh [Staged.guardCreate c.task c.rg] c.task wb' (by simpa using h)
-        right; right; left; exact ⟨_, _, _, by simpa using this⟩
-      · right; right; right; exact ⟨_, _, rfl⟩
+        right; right; left; exact ⟨_, Or.inl rfl, by simpa using this⟩
+      · right; right; right; rfl
+  case gc =>
+    simp only
+    split
+    · left; rfl
+    · right; left; exact ⟨_, Or.inr (Or.inr (Or.inr (Or.inr rfl))), rfl⟩
+  case claim =>
+    simp only
+    split
+    · left; rfl
+    · right; left; exact ⟨_, Or.inr (Or.inr (Or.inl rfl)), rfl⟩
+  case advance =>
+    simp only
+    right; left; exact ⟨_, Or.inr (Or.inr (Or.inl rfl)), rfl⟩
   all_goals
     simp only
-    first
-      | (right; left; exact ⟨_, rfl⟩)
-      | (split
-         · left; rfl
-         · right; left; exact ⟨_, rfl⟩)
+    split
+    · left; rfl
+    · right; left; exact ⟨_, Or.inr (Or.inr (Or.inr (Or.inl rfl))), rfl⟩
 
-theorem commitStaged_single (db : State) (ops : List Staged) (ws : List W)
-    (hs : ops = [] ∨ (∃ op, ops = [op]) ∨ (∃ t rg op, ops = [Staged.guardCreate t rg, op]) ∨ (∃ t rg, ops = [Staged.guardCreate t rg]))
-    (h : commitStaged db {} ops = .ok ws) : OneOp db ws := by
-  rcases hs with hs | ⟨op, hs⟩ | ⟨t, rg, op, hs⟩ | ⟨t, rg, hs⟩
+theorem commitStaged_single (db : State) (c : Cmd) (ops : List Staged) (ws : List W)
+    (hs : ops = [] ∨ (∃ op, OpOf c op ∧ ops = [op]) ∨ (∃ op, OpOf c op ∧ ops = [Staged.guardCreate c.task c.rg, op]) ∨
+      (ops = [Staged.guardCreate c.task c.rg]))
+    (h : commitStaged db {} ops = .ok ws) : OneOp db c ws := by
+  rcases hs with hs | ⟨op, hop, hs⟩ | ⟨op, hop, hs⟩ | hs
   · subst hs; simp [commitStaged] at h; rw [h]; exact .nothing
   · subst hs
     simp only [commitStaged] at h
@@ -148,13 +170,13 @@ theorem commitStaged_single (db : State) (ops : List Staged) (ws : List W)
     · simp at h
     · rename_i o' ws' hr
       simp at h; rw [← h]
-      exact runStaged_oneOp db op o' ws' hr
+      exact runStaged_oneOp db c op hop o' ws' hr
   · subst hs
     simp only [commitStaged] at h
     split at h
     · simp at h
     · rename_i o' ws' hr
-      have hg := runStaged_guard db {} o' t rg ws' hr
+      have hg := runStaged_guard db {} o' c.task c.rg ws' hr
       rw [hg.1, hg.2] at h
       split at h
       · simp at h
@@ -165,19 +187,18 @@ theorem commitStaged_single (db : State) (ops : List Staged) (ws : List W)
           (try simp at h2)
           (try simp at h)
           rw [← h, ← h2]
-          simp
-          exact runStaged_oneOp db op o2 ws3 hr2
+          exact runStaged_oneOp db c op hop o2 ws3 hr2
   · subst hs
     simp only [commitStaged] at h
     split at h
     · simp at h
     · rename_i o' ws' hr
-      have hg := runStaged_guard db {} o' t rg ws' hr
-      rw [hg.2] at h; simp [commitStaged] at h; rw [h]; exact .nothing
+      have hg := runStaged_guard db {} o' c.task c.rg ws' hr
+      rw [hg.2] at h; simp at h; rw [h]; exact .nothing
 
 /-- ONE command: the store is unchanged or receives the writes of one closure -/
 theorem applySingle_state (db : State) (c : Cmd) :
-    (applySingle db c).1 = db ∨ ∃ ws, OneOp db ws ∧ (applySingle db c).1 = applyWs db ws := by
+    (applySingle db c).1 = db ∨ ∃ ws, OneOp db c ws ∧ (applySingle db c).1 = applyWs db ws := by
   have hshape := stageCmd_shape c
   simp only at hshape
   unfold applySingle
@@ -189,7 +210,7 @@ theorem applySingle_state (db : State) (c : Cmd) :
       · rename_i ws hc
         right; refine ⟨ws, ?_, rfl⟩
         rw [hwb] at hc
-        exact commitStaged_single db _ ws hshape hc
+        exact commitStaged_single db c _ ws hshape hc
       · split <;> (left; rfl)
     · left; rfl
   · rename_i wb heq
@@ -198,7 +219,7 @@ theorem applySingle_state (db : State) (c : Cmd) :
     · rename_i ws hc
       right; refine ⟨ws, ?_, rfl⟩
       rw [hwb] at hc
-      exact commitStaged_single db _ ws hshape hc
+      exact commitStaged_single db c _ ws hshape hc
     · split <;> (left; rfl)
 
 end WK.C17
